@@ -3,19 +3,24 @@ import refs_cases
 
 ID = "C05"
 PROPERTIES_FILE = "Properties/C05.v"
-COQ_TARGETS = ["Properties/C05.vo", "Refs/Cases.vo"]
+COQ_TARGETS = ["Properties/C05.vo", "Refs/Cases.vo", "Refs/RefProofs.vo", "Refs/FenceProofs.vo"]
 LEVEL = "proof"
-TECHNIQUE = ("Coq theorems (induction over all request histories, all backends) over a hand-written sequential Gallina model of "
-             "fidRef reference counting, the DecRef cascade, the fid tables and connState.stop; model tied to the code by a "
-             "differential against the real Server.Handle driven over net.Pipe with a counting, failure-injecting backend")
-LEVEL_TEXT = ("Theorems over Refs/Model.v for every history of requests and every backend (success/failure of each call chosen freely): "
-              "reference-count invariant, every File closed at most once and never used after Close, failed walks/attaches close exactly "
-              "what they obtained, after stop of every connection every File is closed exactly once. Every run re-checks the proofs and "
-              "replays generated histories (failure injected at backend-call indexes, connection cut after every byte of short sessions, "
-              "fid replacement, xattr fids, create-rebinding) on the real server, comparing replies, backend call logs and the path tree "
-              "with the model, and evaluating the lifecycle predicate on the observed call log, Handle's return and the goroutine count.")
-LEVEL_NOTE = ("Sequential model: requests are handled one at a time (in-flight interleavings are the subject of C06/C07/C16); "
-              "Handle returning / no goroutine left are observed on the real code only. The model is tied to the Go code by the differential only.")
+TECHNIQUE = ("Coq theorems (all backends, all states) over a hand-written sequential Gallina model of fidRef reference counting, the DecRef "
+             "cascade, the fid tables and connState.stop; model tied to the code by a differential against the real Server.Handle driven "
+             "over net.Pipe with a counting, failure-injecting, path-addressed backend; lifecycle predicate evaluated on the observed call log")
+LEVEL_TEXT = ("Proved in Coq for every backend (every success/failure choice of every backend call): the reference-count invariant "
+              "refs = #fid-table entries + #transient holders + #live children + #live xattr borrowers holds initially and is preserved by every "
+              "reference-count primitive (LookupFID, the deferred DecRef with its whole cascade, InsertFID over a bound fid, DeleteFID, new "
+              "fidRefs, doWalk's hand-over, renameChildTo's re-parenting) and by the complete handlers of 11 of the 20 modelled request kinds incl. "
+              "Tclunk and the disconnect; walkOne closes the File it obtained on every error path. PARTIAL: the composition through Tattach/Twalk/"
+              "Tlcreate/Tremove/Tlink/Tunlinkat/Trename(at)/Txattrwalk and hence closed-exactly-once / no-use-after-close / disconnect over whole "
+              "histories are NOT derived in Coq: every run evaluates them on the backend call log observed from the real server (failure injected "
+              "at every backend-call index of the corpus, connection cut after every byte of short sessions, fid replacement, xattr fids, "
+              "create-rebinding), checks Handle's return and the goroutine count, and compares replies, call logs and the path tree with the model.")
+LEVEL_NOTE = ("Sequential model: requests are handled one at a time (in-flight interleavings are the subject of C06/C07/C16); Handle returning / "
+              "no goroutine left are observed on the real code only; out-of-fuel outcomes of the cascade are excluded by hypothesis (fuel-suffices "
+              "lemma = acyclic parent chains, assumption B2, not proved). The model is tied to the Go code by the differential only. The 817d440 "
+              "deadlock (DecRef under childMu) needs a disconnect inside a Renamed callback and is not reachable by this sequential harness.")
 DESIGN_REF = "6/C05"
 ASSUMPTIONS = [
     "requests of all connections are processed one at a time (sequential model); Go map iteration order only permutes Renamed/Close runs",
@@ -56,6 +61,9 @@ def run(ctx):
     M, P = refs_cases.evaluate(ctx, ID, obs)
     for idx in P:
         o = obs[idx]
+        if o["kind"] == "c08-xattr-clone":
+            ctx.violation("C08:xattr-clone-unregistered", "clone of an xattr fid is not told about renames", slim(o))
+            continue
         ctx.violation("%s:lifecycle" % ID, "observed behaviour violates %s (File closed twice / used after Close / never closed / path incoherent / "
                       "fenced request reached the backend / Handle did not return)" % ID, slim(o))
     nm = 0
